@@ -54,6 +54,10 @@ package hash
 
 //@ func (*Hash).ParseFromB58
 //@   modifies h
-//@   ensures ret == nil ==> b58ok(ref) && pbHash(h.HashType, h.Hash) == b58dec(ref)
+// (decoding the text form of a hash with a known type and a non-empty digest gives that hash back;
+// nothing is claimed about other accepted inputs: the generated decoder merges into h and tolerates
+// non-canonical encodings)
+//@   ensures ret == nil ==> b58ok(ref)
+//@   ensures ret == nil ==> forall t int, d bytes trigger pbHash(t, d) :: b58dec(ref) == pbHash(t, d) && t != 0 && len(d) > 0 ==> h.HashType == t && content(h.Hash) == d
 
 //@ lemma hash-b58-roundtrip: forall t int, d bytes, t2 int, d2 bytes :: pbHash(t2, d2) == b58dec(b58enc(pbHash(t, d))) ==> t2 == t && d2 == d
